@@ -71,3 +71,10 @@ Example c27_nonvacuous :
   wf_ctx x86_64 /\ llong_size x86_64 = 8 /\
   const_eval (dm_of x86_64) (EBin BDiv (EUn UNeg (lit 7)) (ELit TUInt 2)) = Some (TUInt, 2147483644).
 Proof. exact nonvacuous. Qed.
+
+(* eval_binop's EnumType branch (both operands of enumerated type) installs, for every key, the same operator
+   as the integer branch — in particular truncating c_div / c_rem — so the theorems above carry over to
+   enum-typed operands (enumerated types are compatible with int: C11 6.7.2.2p4) *)
+Theorem c27_enum_branch_same_operators : Forall enum_entry_agrees binop_enum_table.
+Proof. exact enum_table_agrees. Qed.
+Print Assumptions c27_enum_branch_same_operators.
